@@ -105,6 +105,13 @@ theorem h2_unusable_not_available (c : H2) (h : c.st = .closed ∨ c.connErr = t
     Gen.h2IsAvailable c = false := by
   simp only [Gen.h2IsAvailable]; grind
 
+/-- **failed_io_takes_connection_out_of_service** (C01: "otherwise it is closed and never reused") - Tie A + the translated predicate: every
+handler that records a read or write failure also sets `_connection_error`, and a connection with that flag is not available, whatever
+its other flags say - so no later request is assigned to it (`C09.assigned_is_available_or_new`). -/
+theorem failed_io_takes_connection_out_of_service (c : H2) (h : c.connErr = true) :
+    Gen.h2IoFailureMarksConnection = true ∧ Gen.h2IsAvailable c = false :=
+  ⟨by decide, h2_unusable_not_available c (Or.inr (Or.inl h))⟩
+
 /-- a response close that leaves no stream and no starting request behind arms the expiry at exactly `now + keepalive_expiry` -/
 theorem h2_last_close_arms_expiry (g : G2) (now k : Nat) (hi : Inv2 g) (ha : g.c.st = .active) (h1 : g.c.streams = 0)
     (hc : g.closing ≠ 0) (hp : g.pending = 0) (ht : g.c.terminated = false) (hu : g.c.usedAll = false) (hk : g.c.ka = some k) :
